@@ -26,6 +26,8 @@ pub struct Decoded {
     pub info_w: u32,
     pub info_h: u32,
     pub pixels: Vec<u8>,
+    /// the public accessors of `Info`: raw_bytes, raw_row_length, bits_per_pixel, bytes_per_pixel, is_animated, animation_control().is_some()
+    pub accessors: (usize, usize, usize, usize, bool, bool),
 }
 
 /// identity decode of the first image through the public API
@@ -38,6 +40,10 @@ pub fn decode_first(file: &[u8]) -> Result<Decoded, String> {
             let i = reader.info();
             (i.width, i.height, i.color_type as u8, i.bit_depth as u8, i.interlaced)
         };
+        let accessors = {
+            let i = reader.info();
+            (i.raw_bytes(), i.raw_row_length(), i.bits_per_pixel(), i.bytes_per_pixel(), i.is_animated(), i.animation_control().is_some())
+        };
         let buffer_size = reader.output_buffer_size();
         let line_size = reader.output_line_size(w);
         let (oc, od) = reader.output_color_type();
@@ -49,6 +55,7 @@ pub fn decode_first(file: &[u8]) -> Result<Decoded, String> {
             out_color: oc as u8, out_depth: od as u8,
             info_line: oi.line_size, info_w: oi.width, info_h: oi.height,
             pixels: buf,
+            accessors,
         })
     }) {
         Ok(r) => r,
@@ -96,6 +103,15 @@ pub fn judge(file: &[u8], want: &Img, interlace: bool, model_ans: Option<&str>) 
             "reported geometry {}x{} c{} d{} il={} line={} buf={} out=({},{}) info=({}x{},{}) differs from the header's {}x{} c{} d{} il={} line={}",
             got.w, got.h, got.color, got.depth, got.interlaced, got.line_size, got.buffer_size, got.out_color, got.out_depth,
             got.info_w, got.info_h, got.info_line, want.w, want.h, want.color, want.depth, interlace, rb)));
+    }
+    // the public accessors of Info against values computed from the builder's parameters (oracle only: the model has no
+    // notion of these accessors): bytes of the deinterlaced filtered image and of one of its rows (filter byte included),
+    // bits and (rounded-up) bytes per pixel, and no animation
+    let want_acc = ((1 + rb) * want.h as usize, 1 + rb, want.bits_pp(), want.filter_bpp(), false, false);
+    if got.accessors != want_acc {
+        return Some(("oracle", format!("geometry-accessors/{}", tag), format!(
+            "Info accessors (raw_bytes, raw_row_length, bits_per_pixel, bytes_per_pixel, is_animated, animation_control().is_some()) = {:?}, the header's {}x{} c{} d{} gives {:?}",
+            got.accessors, want.w, want.h, want.color, want.depth, want_acc)));
     }
     if got.pixels != want.pixels {
         let at = got.pixels.iter().zip(&want.pixels).position(|(a, b)| a != b).unwrap_or(got.pixels.len().min(want.pixels.len()));
@@ -337,6 +353,92 @@ fn component_ties(ctx: &mut Ctx) {
                 J::obj().set("kind", J::s("zw")).set("line", J::s(&crate::util::shorten(&line, 20000, 0))));
         }
     }
+    // ZlibStream::finish_compressed_chunks (oracle only: the window model `cmp zw` has no finishing step).  Highly compressible
+    // data whose announced size lies within one row above 32 / 64 / 128 KiB, optionally followed by MORE data than announced:
+    // fed the way the decoder feeds a file that is available as a whole (each call gets all that is left), the output buffer
+    // is exactly full when the last input byte has been taken in, and the tail - and, with surplus data, a second buffer
+    // load - only comes out while finishing.  Whatever the pieces and the size hint: decompress* + finish hands out exactly
+    // the data; finishing a stream that was never started hands out nothing; with the Adler-32 check switched on
+    // (`set_ignore_adler32(false)`) an altered checksum is refused, switched off it is inert.
+    for run in 0..ctx.n(60, 240) {
+        let boundary = *rng.pick(&[32usize << 10, 64 << 10, 128 << 10]);
+        let rowlen = rng.usize(2, 1100);
+        let extra = *rng.pick(&[0usize, 0, 1, 7, 300, 2000, 40_000]);
+        // run 21 is fixed (442 x 296 gray: 131128 bytes announced, one surplus byte, checksum intact and checked, one piece)
+        let (boundary, rowlen, extra) = if run == 21 { (128usize << 10, 443usize, 1usize) } else { (boundary, rowlen, extra) };
+        let n = (boundary / rowlen + 1) * rowlen;
+        let mut data = vec![0u8; n + extra];
+        let head = if run % 3 == 2 { rng.usize(0, 2000).min(n / 2) } else { 0 };
+        for b in data[..head].iter_mut() {
+            *b = rng.byte();
+        }
+        let level = *rng.pick(&[1u32, 6, 9]);
+        let mut z = zlib_stream(&data, &Deflater::Level(if run == 21 { 6 } else { level }));
+        let hint = match run % 4 { 0 | 1 => Some(n), 2 => None, _ => Some(2 * n) };
+        let (check_adler, bad_adler) = (run % 3 == 0, run % 6 < 4 && run % 2 == 0);
+        if bad_adler {
+            let at = z.len() - 1 - rng.usize(0, 3);
+            z[at] ^= 1 << rng.below(8);
+        }
+        let whole_pieces = run % 5 != 4;
+        let mut zs = Zlib::new();
+        let mut out: Vec<u8> = vec![];
+        let fresh = guarded(|| Zlib::new().finish_compressed_chunks(&mut out));
+        let fresh_ok = matches!(fresh, Ok(Ok(()))) && out.is_empty();
+        if let Some(m) = hint { zs.set_max_total_output(m); }
+        let accepted = zs.set_ignore_adler32(!check_adler);
+        let mut pos = 0usize;
+        let mut failed: Option<String> = None;
+        let mut calls = 0usize;
+        while pos < z.len() && failed.is_none() {
+            calls += 1;
+            let end = if whole_pieces { z.len() } else { (pos + 1 + rng.usize(0, 60)).min(z.len()) };
+            let before = out.len();
+            match guarded(|| zs.decompress(&z[pos..end], &mut out)) {
+                Ok(Ok(c)) => {
+                    if (c == 0 && out.len() == before) || calls > 100_000 { failed = Some("no progress".into()); }
+                    pos += c;
+                }
+                Ok(Err(e)) => failed = Some(e),
+                Err(p) => failed = Some(format!("PANIC {}", p)),
+            }
+        }
+        let (len, out_pos, _, _) = zs.observe();
+        let full_with_pending = failed.is_none() && len == out_pos && out.len() < data.len();
+        if failed.is_none() {
+            match guarded(|| zs.finish_compressed_chunks(&mut out)) {
+                Ok(Ok(())) => {}
+                Ok(Err(e)) => failed = Some(e),
+                Err(p) => failed = Some(format!("PANIC {}", p)),
+            }
+        }
+        ctx.rep.eval(true, fnv64(&z) ^ run as u64);
+        ctx.rep.count("component", "ZlibStream finish (oracle only)");
+        ctx.rep.count("ZlibStream finish", &format!("{}{}", if full_with_pending { "output buffer full, data pending" } else { "output buffer not full" }, if extra > 0 && hint == Some(n) { ", more data than announced" } else { "" }));
+        let case = J::obj().set("kind", J::s("zfinish")).set("n", J::i(n as u64)).set("extra", J::i(extra as u64)).set("hint", J::i(hint.map(|h| h as i64).unwrap_or(-1))).set("check_adler", J::Bool(check_adler)).set("stream", J::s(&hex(&z)));
+        let must_fail = check_adler && bad_adler;
+        if !fresh_ok || !accepted {
+            ctx.rep.violation("oracle", "zlibstream/finish-of-new-stream", "finish_compressed_chunks on a new ZlibStream failed or produced output, or set_ignore_adler32 was refused before any input", case);
+        } else if failed.as_deref().map(|f| f.starts_with("PANIC")).unwrap_or(false) {
+            ctx.rep.violation("oracle", "zlibstream/finish-panic", &format!("ZlibStream panicked: {}", failed.unwrap_or_default()), case);
+        } else if must_fail != failed.is_some() {
+            let surplus = extra > 0 && hint == Some(n);
+            let key = if must_fail { "zlibstream/adler-not-checked".to_string() }
+                else if check_adler && failed.as_deref().map(|f| f.contains("WrongChecksum")).unwrap_or(false) { format!("zlibstream/intact-checksum-refused{}", if surplus { "/more-data-than-announced" } else { "" }) }
+                else { "zlibstream/finish-failed".to_string() };
+            if surplus && key.starts_with("zlibstream/intact-checksum-refused") {
+                // a stream that inflates to MORE than the image announces is not a well-formed PNG: outside C01's domain.  That its
+                // intact checksum is refused when the data arrives in one piece (and accepted in small pieces) is C04's recorded
+                // finding D27 (class reader/surplus-data-result-differs/adler-check-on); here it is only counted.
+                ctx.rep.count("ZlibStream finish, outside C01's domain", "more data than announced, Adler-32 check on: intact checksum refused (D27, see C04)");
+            } else {
+                ctx.rep.violation("oracle", &key, &format!("ZlibStream (Adler-32 check {}, checksum {}): {}", if check_adler { "on" } else { "off" }, if bad_adler { "altered" } else { "intact" }, failed.unwrap_or("decompress + finish succeeded".into())), case);
+            }
+        } else if failed.is_none() && out != data {
+            let at = out.iter().zip(&data).position(|(a, b)| a != b).unwrap_or(out.len().min(data.len()));
+            ctx.rep.violation("oracle", "zlibstream/finish-output", &format!("decompress* + finish_compressed_chunks handed out {} bytes, the stream holds {}; first difference at {}", out.len(), data.len(), at), case);
+        }
+    }
     // UnfilteringBuffer
     for run in 0..ctx.n(150, 600) {
         let bpp = *rng.pick(&[1usize, 2, 3, 4, 6, 8]);
@@ -390,6 +492,34 @@ fn component_ties(ctx: &mut Ctx) {
 
 pub fn replay(ctx: &mut Ctx, case: &J) {
     let get = |k: &str| case.get(k).and_then(|v| v.as_i64()).unwrap_or(0);
+    #[cfg(png_verif)]
+    if case.get("kind").and_then(|k| k.as_str()) == Some("zfinish") {
+        // the stored stream in one piece, then finish; reference: miniz_oxide's zlib inflater (which verifies the Adler-32)
+        use png::verif_hooks::Zlib;
+        let z = case.get("stream").and_then(|f| f.as_str()).and_then(unhex).unwrap_or_default();
+        let check = matches!(case.get("check_adler"), Some(J::Bool(true)));
+        let reference = miniz_oxide::inflate::decompress_to_vec_zlib(&z);
+        let mut zs = Zlib::new();
+        if get("hint") >= 0 { zs.set_max_total_output(get("hint") as usize); }
+        zs.set_ignore_adler32(!check);
+        let mut out = vec![];
+        let mut pos = 0usize;
+        let mut failed: Option<String> = None;
+        while pos < z.len() && failed.is_none() {
+            match zs.decompress(&z[pos..], &mut out) { Ok(0) => failed = Some("no progress".into()), Ok(c) => pos += c, Err(e) => failed = Some(e) }
+        }
+        if failed.is_none() { if let Err(e) = zs.finish_compressed_chunks(&mut out) { failed = Some(e); } }
+        ctx.rep.eval(true, fnv64(&z));
+        println!("ZlibStream: {:?} ({} bytes); reference inflater: {}", failed, out.len(), match &reference { Ok(d) => format!("ok, {} bytes", d.len()), Err(e) => format!("{:?}", e.status) });
+        match (&reference, &failed) {
+            (Ok(d), None) if *d == out => {}
+            (Ok(_), None) => ctx.rep.violation("oracle", "zlibstream/finish-output", "output differs from the reference inflater's", case.clone()),
+            (Ok(_), Some(e)) => ctx.rep.violation("oracle", if e.contains("WrongChecksum") { "zlibstream/intact-checksum-refused/replay" } else { "zlibstream/finish-failed" }, &format!("a stream the reference inflater accepts (checksum included) is refused: {}", e), case.clone()),
+            (Err(_), None) if check => ctx.rep.violation("oracle", "zlibstream/adler-not-checked", "a stream the reference inflater refuses is accepted with the Adler-32 check on", case.clone()),
+            _ => {}
+        }
+        return;
+    }
     let file = case.get("file").and_then(|f| f.as_str()).and_then(unhex).unwrap_or_default();
     let px = case.get("expected_pixels").and_then(|f| f.as_str()).and_then(unhex).unwrap_or_default();
     let img = Img { color: get("color") as u8, depth: get("depth") as u8, w: get("w") as u32, h: get("h") as u32, pixels: px };
